@@ -251,6 +251,17 @@ OFFSETS = [
 ]
 
 
+CONSTS = [
+    "OID_hmac_sm3", "OID_sm4_cbc", "OID_sm2sign_with_sm3", "OID_sm2", "OID_ec_public_key", "OID_cms_data",
+    "TLS_protocol_tlcp", "TLS_protocol_tls12", "TLS_protocol_tls13", "TLS_client_mode", "TLS_server_mode",
+    "TLS_cipher_ecc_sm4_cbc_sm3", "TLS_cipher_ecdhe_sm4_cbc_sm3", "TLS_cipher_sm4_gcm_sm3", "TLS_curve_sm2p256v1",
+    "TLS_MAX_RECORD_SIZE", "TLS_MAX_PLAINTEXT_SIZE", "TLS_MAX_CERTIFICATES_SIZE", "TLS_DEFAULT_VERIFY_DEPTH", "TLS_MAX_VERIFY_DEPTH",
+    "X509_cert_chain_server", "X509_cert_chain_client", "X509_cert_server_auth", "X509_cert_client_auth", "X509_cert_ca",
+    "X509_version_v3", "X509_version_v1", "TLS_record_handshake", "TLS_record_application_data", "TLS_record_alert",
+    "TLS_record_change_cipher_spec",
+]
+
+
 def _helper_source(P):
     inc = "".join('#include <gmssl/%s>\n' % h for h in P["headers"])
     lines = ["#include <stddef.h>\n#include <stdlib.h>\n#include <stdio.h>\n#include <string.h>\n", inc]
@@ -278,7 +289,10 @@ def _helper_source(P):
         lines.append('#ifdef VH_HAS_%d\n' % i)
         lines.append('p+=sprintf(p,"\\"%s.%s\\":[%%zu,%%zu],",offsetof(%s,%s),sizeof(((%s*)0)->%s));\n' % (s, f, s, f, s, f))
         lines.append('#endif\n')
-    lines.append('p+=sprintf(p,"\\"_\\":[0,0]}}");return buf;}\n')
+    lines.append('p+=sprintf(p,"\\"_\\":[0,0]},\\"consts\\":{");\n')
+    for c in CONSTS:
+        lines.append('p+=sprintf(p,"\\"%s\\":%%ld,",(long)(%s));\n' % (c, c))
+    lines.append('p+=sprintf(p,"\\"_\\":0}}");return buf;}\n')
     return "".join(lines)
 
 
@@ -340,6 +354,10 @@ def helper():
 
 def sizeof(name):
     return helper()[1]["sizeof"][name]
+
+
+def const(name):
+    return helper()[1]["consts"][name]
 
 
 def offsetof(struct, field):
